@@ -6,6 +6,9 @@ package pbft
 // Trace hooks of the model-based checks in /verif (build tag "verif").
 // handleMsg / handleTimeout call them through a defer registered after the mutex defer, so the event is
 // emitted after the state change and while cs.mtx is still held (the linearisation point of the handler).
+// The sequence number is taken when the handler STARTS (already under cs.mtx): gossip routines hold pointers into the
+// round state and can forward a vote the handler has added before the handler returns, so only the start order is
+// consistent with causality across nodes. Consumers order events by Seq.
 
 import "sync/atomic"
 
@@ -34,7 +37,6 @@ func verifEmit(cs *ConsensusState, ev VerifEvent) {
 	if fn == nil {
 		return
 	}
-	ev.Seq = atomic.AddUint64(&verifSeq, 1)
 	ev.Post = cs.verifProjectNoLock(VerifTraceMaxRound)
 	fn(cs, ev)
 }
@@ -43,12 +45,14 @@ func verifTraceMsg(cs *ConsensusState, mi msgInfo) func() {
 	if VerifTraceFn.Load() == nil {
 		return verifNop
 	}
-	return func() { verifEmit(cs, VerifEvent{Kind: "msg", Msg: mi.Msg, PeerKey: mi.PeerKey}) }
+	seq := atomic.AddUint64(&verifSeq, 1)
+	return func() { verifEmit(cs, VerifEvent{Seq: seq, Kind: "msg", Msg: mi.Msg, PeerKey: mi.PeerKey}) }
 }
 
 func verifTraceTimeout(cs *ConsensusState, ti timeoutInfo) func() {
 	if VerifTraceFn.Load() == nil {
 		return verifNop
 	}
-	return func() { verifEmit(cs, VerifEvent{Kind: "timeout", Timeout: verifTimeout(ti)}) }
+	seq := atomic.AddUint64(&verifSeq, 1)
+	return func() { verifEmit(cs, VerifEvent{Seq: seq, Kind: "timeout", Timeout: verifTimeout(ti)}) }
 }
